@@ -13,7 +13,8 @@
 (* and records a trace that FramingTrace validates.                        *)
 (***************************************************************************)
 EXTENDS Naturals, Sequences, FiniteSets, Json, TLC
-CONSTANTS MAXCUTS,   \* max number of cuts per scenario
+CONSTANTS ALLSETUPS, \* FALSE: the server-side set-up only with a few leftover splits (quick tier)
+          MAXCUTS,   \* max number of cuts per scenario
           STREAMS,   \* set of [msgs |-> <<template names>>, be |-> <<BOOLEAN>>]
           TAILS      \* tail kinds for the size-limit family
 
@@ -28,7 +29,8 @@ Small(P, k) == {S \in SUBSET P : Cardinality(S) <= k}
 
 \* set-up variants: pre-authenticated socket (no leftovers) or a handshake that over-reads up to `left`
 Setups(P) == {[via |-> "auth", left |-> <<0, "0">>]}
-        \cup {[via |-> v, left |-> p] : v \in {"client", "server"}, p \in P \cup {<<0, "0">>}}
+        \cup {[via |-> "client", left |-> p] : p \in P \cup {<<0, "0">>}}
+        \cup {[via |-> "server", left |-> p] : p \in {q \in P \cup {<<0, "0">>} : ALLSETUPS \/ q[2] \in {"0", "h", "e"}}}
 
 \* A case is built in two steps so that TLC's workers share the enumeration: the initial states fix
 \* everything but the cut set, the successor states add each cut set.
